@@ -174,4 +174,27 @@ def holds (c : Cfg) (evs : List Ev) (flushed : Bool) : Option String :=
   | none, some _ => some "late-row-inside-allowance-not-redelivered"
   | none, none => if flushed then complete c s else none
 
+/-- processing-time oracle (tumbling): every delivered result is a size-aligned interval holding
+only rows of that interval, no row is reported twice, and after `ticks` timer ticks every row whose
+interval lies among the first `ticks` intervals (counted from the first row's interval) has been
+reported exactly once -/
+def holdsPT (c : Cfg) (evs : List Ev) (ticks : Nat) : Option String :=
+  let arrs := evs.filterMap fun e => match e with | .arr id (some ts) _ => some (id, ts) | _ => none
+  let ems := evs.filterMap fun e => match e with | .emit _ a b ids _ => some (a, b, ids) | _ => none
+  let tsOf (i : Nat) : Option Int := (arrs.find? (·.1 = i)).map (·.2)
+  let badShape := ems.find? fun e => !(decide (e.2.1 = e.1 + c.size) && decide (e.1 % c.size = 0) &&
+      e.2.2.all fun i => match tsOf i with | some t => decide (e.1 ≤ t) && decide (t < e.2.1) | none => false)
+  let allIds := ems.flatMap (·.2.2)
+  match badShape with
+  | some _ => some "pt-row-outside-its-interval"
+  | none =>
+    if allIds.eraseDups.length ≠ allIds.length then some "pt-row-reported-twice" else
+    match arrs.head? with
+    | none => none
+    | some (_, t0) =>
+      let passedEnd := alignDown t0 c.size + (Int.ofNat ticks) * c.size
+      match arrs.find? (fun a => decide (alignDown a.2 c.size + c.size ≤ passedEnd) && !allIds.contains a.1) with
+      | some a => some s!"pt-row-never-reported id={a.1}"
+      | none => none
+
 end WinSpec
